@@ -75,8 +75,11 @@ func write(md *memoryDatabase, buf []byte, memTimeSeries uint32, fieldIndex uint
 		oldValue := encoding.BytesToFloat64(buf[pos : pos+8])
 		value = fieldType.AggType().Aggregate(oldValue, value)
 	} else {
-		// new data for time slot
-		buf[endOffset] = byte(delta)
+		// new data for time slot, the end marker only grows
+		// (an out-of-order slot inside the window must not hide later slots)
+		if delta > getEnd(buf) {
+			buf[endOffset] = byte(delta)
+		}
 		buf[markOffset+markIdx] |= flagIdx // mark value exist
 	}
 	// finally, write value into the body of current write buffer
